@@ -856,9 +856,11 @@ def check_builder(case):
 FACETS = [
     Facet("values", check_value, strategy=lambda tier: value_cases(),
           quick=(4, 1500), thorough=(16, 20000), min_nontrivial=0.2,
+          fuzz_runs=300000, fuzz_instrument=("scippneutron.io.cif",),
           doc="one value (pair or loop cell, optionally with a neighbour) written and parsed back"),
     Facet("documents", check_document_full, strategy=lambda tier: document_cases(),
           quick=(6, 250), thorough=(16, 4000), min_nontrivial=0.3,
+          fuzz_runs=60000, fuzz_instrument=("scippneutron.io.cif",),
           doc="multi-block documents of chunks and loops with comments and schemas"),
     Facet("builder", check_builder, strategy=lambda tier: builder_cases(),
           quick=(6, 200), thorough=(16, 3000), min_nontrivial=0.3,
